@@ -1,5 +1,6 @@
 import DEvo.Opt.Optimize
 import DEvo.Generated.Tables
+import DEvo.Run.Load
 
 /-! # C14 — the SQL preview is exactly what an execution would run; output is deterministic -/
 
@@ -101,5 +102,26 @@ theorem C14_cex_preview_differs :
 between): their order is the declaration order of the many-to-many fields in every process.  Read from the source on
 every run. -/
 theorem C14_source_delete_model_ordered : DEvo.Generated.deleteModelIteration = "ordered" := by decide
+
+/-! ## preview and execution read the same evolution files -/
+
+open DEvo.Load in
+/-- **the preview and the execution load the same mutations on every database** when both hand the alias of the
+database being evolved to the loader: whatever the app ships (generic SQL files, per-database SQL files, Python
+modules), for every alias -/
+theorem C14_preview_loads_what_execution_loads (db : String) (es : List Shipped) :
+    executeLoad true db es = previewLoad db es := rfl
+
+/-- both call sites of the current source do (read by the translator on every run) -/
+theorem C14_source_loads_pass_database : DEvo.Generated.mutationLoadsPassDatabase = true := by decide
+
+open DEvo.Load in
+/-- when the execution falls back to the default alias, an evolution shipped as per-database SQL files is previewed
+from one file and executed from another -/
+theorem C14_cex_execution_loads_default_file :
+    let es : List Shipped := [⟨"idx", none, [("default", "CREATE INDEX a"), ("archive", "CREATE INDEX b")], []⟩]
+    previewLoad "archive" es = [.sql "idx" "CREATE INDEX b"] ∧
+    executeLoad false "archive" es = [.sql "idx" "CREATE INDEX a"] := by
+  decide
 
 end DEvo.Props.C14
